@@ -146,6 +146,27 @@ def r1c_await(ctx):
     return r
 
 
+def r1f_no_try_lock(ctx):
+    r = Result("R1f", "no non-blocking acquisition (try_lock / try_read / try_write / try_get / try_get_mut / try_entry) of a lock "
+                      "or concurrent map of the repository: its failure branch is taken depending on what other threads happen to "
+                      "hold, so whatever it computes there is schedule dependent; every such site must be reviewed")
+    lm = ctx.lock_model()
+    n = 0
+    for op in lm.ops:
+        n += 1
+        if op.method.startswith("try_"):
+            key = "R1f|%s|%s.%s" % (op.fn.id, op.ident.split("|")[-1].split(".")[-1], op.method)
+            if key in REVIEWED:
+                r.review(key, REVIEWED[key])
+            else:
+                r.violate(key, "%s: `%s()` on %s at %s: the contended outcome is handled by a fallback, which makes the result "
+                               "depend on the thread schedule" % (op.fn.id, op.method, op.ident, ctx.bin.span_str(op.call["span"])))
+        else:
+            r.ok()
+    r.floor("lock operations", n, 60)
+    return r
+
+
 AST_PREFIXES = ("rustpython_parser::rustpython_ast::", "rustpython_ast::")
 
 
